@@ -5,6 +5,7 @@ from collections.abc import Sequence
 import copy
 import datetime
 import enum
+import os
 import pickle
 import threading
 from typing import Any
@@ -449,7 +450,9 @@ class JournalStorageReplayResult:
 
     @property
     def worker_id(self) -> str:
-        return self._worker_id_prefix + str(threading.get_ident())
+        # The process id keeps the ids of a forked child and its parent apart: they share the
+        # prefix chosen in ``__init__`` and, in their main threads, the thread identifier.
+        return self._worker_id_prefix + str(os.getpid()) + "-" + str(threading.get_ident())
 
     @property
     def owned_trial_id(self) -> int | None:
